@@ -11,6 +11,8 @@ Model (JSON):
             "head": "main" | "branch" | "detached",              # what is checked out when Griffe runs
             "dirty": {"modified": bool, "staged": bool, "untracked": bool, "stash": bool},
             "user_worktree": bool,                 # the user already has a linked worktree of their own
+            "clone_no_tags": bool, "upstream_after": bool,   # (clones) cloned with --no-tags / upstream gained a commit, a tag and a
+                                                   # branch after cloning: the clone must not learn about them
             "clone": None | "path" | "file",       # Griffe works on a `git clone` (by path / file:// URL) of the generated repository:
                                                    # all branches but main then exist only as origin/<name>; refs of kind branch /
                                                    # slashed name such a remote-only branch (not a valid commit-ish: the load must fail
@@ -19,7 +21,9 @@ Model (JSON):
                                                    # `sfunc` from: "_<pkg>" (loaded on demand with resolve_external=None/True) or
                                                    # "<pkg>sib" (loaded on demand with resolve_external=True only)
             "ops": [op, ...]}                      # 1..3 operations, each judged against the snapshot taken before it
-    commit = {"state": "ok" | "syntax_top" | "syntax_sub" | "absent", "variant": 0..3}
+    commit = {"state": "ok" | "syntax_top" | "syntax_sub" | "absent", "variant": 0..3,
+              "msg": int}                                # index into COMMIT_MESSAGES (ASCII, UTF-8, raw Latin-1 bytes, very long,
+                                                         # multi-line, control characters)
     op = {"op": "load_git" | "check",
           "ref": [kind, index],                    # kind in tag|branch|sha|short|HEAD|HEAD~1|unknown
           "base": None | [kind, index],            # check only: base_ref
@@ -45,6 +49,15 @@ REPO_NAMES = ["repo", "my repo", "proj.git-x"]
 TAG_NAMES = ["v0.1.0", "0.2", "rel/2024-01", "v1-rc.1"]
 BRANCH_NAMES = ["dev", "feature/x", "release/1.x/fix", "feature-x", "wip_2"]
 
+COMMIT_MESSAGES = [
+    b"plain ascii subject",
+    "r\u00e9vision caf\u00e9 \u2014 \u65e5\u672c\u8a9e subject".encode("utf-8"),
+    "r\u00e9vision import\u00e9e d'un ancien d\u00e9p\u00f4t \u00fc\u00df".encode("latin-1"),  # raw Latin-1, no encoding header: not valid UTF-8
+    b"very long subject " + b"x" * 3000,
+    b"subject line\n\nbody line 1\nbody line 2 with 'quotes' and \"double quotes\"\n\nSigned-off-by: Nobody <n@example.invalid>\n",
+    b"control \x01\x02 bell\x07 escape\x1b[31m red\x1b[0m tab\t cr\r end",
+]
+
 GIT_ENV = {
     "GIT_CONFIG_GLOBAL": "/dev/null",
     "GIT_CONFIG_SYSTEM": "/dev/null",
@@ -69,7 +82,7 @@ def git(repo, *args, check=True, env_extra=None) -> str:
     env.update(GIT_ENV)
     if env_extra:
         env.update(env_extra)
-    p = subprocess.run(["git", "-C", str(repo), *args], capture_output=True, text=True, env=env, check=False)
+    p = subprocess.run(["git", "-C", str(repo), *args], capture_output=True, text=True, errors="replace", env=env, check=False)
     if check and p.returncode:
         raise RuntimeError(f"git {' '.join(args)} failed in {repo}: {p.stderr.strip()}")
     return p.stdout
@@ -152,7 +165,18 @@ def build_repo(case, base: Path) -> dict:
             (repo / ".gitignore").write_text("__pycache__/\n*.pyc\n")
         date = f"2024-01-{j + 1:02d}T12:00:00+0000"
         git(repo, "add", "-A")
-        git(repo, "commit", "-q", "--allow-empty", "-m", f"commit {j} ({commit['state']})", env_extra={"GIT_AUTHOR_DATE": date, "GIT_COMMITTER_DATE": date})
+        msgfile = base / "commit-message.bin"
+        msgfile.write_bytes(COMMIT_MESSAGES[commit.get("msg", 0) % len(COMMIT_MESSAGES)] + f" (commit {j}, {commit['state']})\n".encode())
+        git(repo, "commit", "-q", "--allow-empty", "-F", str(msgfile), env_extra={"GIT_AUTHOR_DATE": date, "GIT_COMMITTER_DATE": date})
+        if commit.get("msg", 0) % len(COMMIT_MESSAGES) == 2:
+            # `git commit` silently re-codes invalid UTF-8 as Latin-1 -> UTF-8; histories imported from legacy systems carry the raw
+            # bytes. Rewrite the commit object with the raw message (what fast-import / cvs2git produce).
+            env = {**os.environ, **GIT_ENV}
+            raw = subprocess.run(["git", "-C", str(repo), "cat-file", "commit", "HEAD"], capture_output=True, check=True, env=env).stdout
+            header = raw.split(b"\n\n", 1)[0]
+            obj = header + b"\n\n" + msgfile.read_bytes()
+            new_sha = subprocess.run(["git", "-C", str(repo), "hash-object", "-t", "commit", "-w", "--stdin"], input=obj, capture_output=True, check=True, env=env).stdout.decode().strip()
+            git(repo, "reset", "-q", "--soft", new_sha)
         shas.append(git(repo, "rev-parse", "HEAD").strip())
     tags, branches = {}, {}
     for ni, ci in case["tags"]:
@@ -169,7 +193,16 @@ def build_repo(case, base: Path) -> dict:
     if clone:
         # the user's repository is a clone: only `main` is a local branch, the others exist as origin/<name>
         url = str(repo) if clone == "path" else "file://" + str(repo)
-        git(base, "clone", "-q", url, str(final_repo))
+        git(base, "clone", "-q", *(["--no-tags"] if case.get("clone_no_tags") else []), url, str(final_repo))
+        if case.get("upstream_after"):
+            # upstream moves on after the clone was made: a new commit, a new tag, a new branch
+            (repo / "README.md").write_text(f"# {name}\n\nreleased upstream after the clone\n")
+            date = "2024-02-01T12:00:00+0000"
+            git(repo, "checkout", "-q", "main")
+            git(repo, "commit", "-q", "-a", "-m", "upstream after clone", env_extra={"GIT_AUTHOR_DATE": date, "GIT_COMMITTER_DATE": date})
+            git(repo, "tag", "post-clone-9.9")
+            git(repo, "branch", "post/clone")
+        origin = repo
         repo = final_repo
         src = repo if case["srcdir"] == "." else repo / case["srcdir"]
         local_branches = {"main"}
@@ -183,7 +216,7 @@ def build_repo(case, base: Path) -> dict:
         head_commit = max(0, len(shas) - 2)
         git(repo, "checkout", "-q", "--detach", shas[head_commit])
     info = {"repo": repo, "name": name, "sibling": sibling_name(name, case.get("sibling")), "shas": shas, "tags": tags, "branches": branches, "head_commit": head_commit, "src": src,
-            "local_branches": local_branches, "clone": clone, "user_worktrees": [], "base": base}
+            "local_branches": local_branches, "clone": clone, "local_tags": (set() if clone and case.get("clone_no_tags") else set(tags)), "user_worktrees": [], "base": base}
     # ---- the user's own uncommitted work, which must survive
     d = case["dirty"]
     if d.get("stash"):
@@ -216,7 +249,7 @@ def resolve_ref(refspec, info) -> tuple[str, int | None]:
     shas = info["shas"]
     if kind == "tag" and info["tags"]:
         t = sorted(info["tags"])[idx % len(info["tags"])]
-        return t, info["tags"][t]
+        return t, (info["tags"][t] if t in info.get("local_tags", info["tags"]) else None)  # (--no-tags clone: unknown locally)
     local = info.get("local_branches") or set(info["branches"])
     if kind == "branch" and info["branches"]:
         b = sorted(info["branches"])[idx % len(info["branches"])]
@@ -248,7 +281,9 @@ def resolve_ref(refspec, info) -> tuple[str, int | None]:
 def strategy():
     from hypothesis import strategies as st
 
-    commit = st.fixed_dictionaries({"state": st.sampled_from(["ok"] * 7 + ["syntax_top", "syntax_sub", "absent"]), "variant": st.integers(0, 3)})
+    commit = st.fixed_dictionaries(
+        {"state": st.sampled_from(["ok"] * 7 + ["syntax_top", "syntax_sub", "absent"]), "variant": st.integers(0, 3), "msg": st.sampled_from([0, 0, 1, 2, 2, 3, 4, 5])}
+    )
     refspec = st.tuples(st.sampled_from(["tag", "tag", "branch", "branch", "slashed", "slashed", "remote", "sha", "short", "HEAD", "HEAD~1", "main", "unknown"]), st.integers(0, 3)).map(list)
     ext_fault = st.fixed_dictionaries({"type": st.sampled_from(["ext_exc", "ext_kbi"]), "k": st.integers(0, 400)})
     sub_fault = st.fixed_dictionaries({"type": st.sampled_from(["sub_nonzero", "sub_oserror"]), "i": st.integers(0, 4)})
@@ -258,7 +293,7 @@ def strategy():
             "op": st.sampled_from(["load_git", "load_git", "check"]),
             "ref": refspec,
             "base": st.one_of(st.none(), refspec),
-            "against_none": st.sampled_from([False, False, False, True]),
+            "against_none": st.sampled_from([False, False, True]),
             "force": st.sampled_from([False, False, True]),
             "resolve_aliases": st.sampled_from([True, True, False]),
             "external": st.sampled_from([None, None, True, False]),
@@ -273,13 +308,15 @@ def strategy():
             "srcdir": st.sampled_from([".", "src"]),
             "gitignore": st.sampled_from([False, False, False, True]),
             "commits": st.lists(commit, min_size=2, max_size=4),
-            "tags": st.lists(st.tuples(st.integers(0, 3), st.integers(0, 3)).map(list), min_size=1, max_size=3),
+            "tags": st.one_of(st.just([]), *[st.lists(st.tuples(st.integers(0, 3), st.integers(0, 3)).map(list), min_size=1, max_size=3)] * 4),
             "branches": st.lists(st.tuples(st.integers(0, 4), st.integers(0, 3)).map(list), min_size=1, max_size=3),
             "head": st.sampled_from(["main", "main", "branch", "detached"]),
             "dirty": st.fixed_dictionaries({"modified": st.booleans(), "staged": st.booleans(), "untracked": st.booleans(), "stash": st.sampled_from([False, False, True])}),
             "user_worktree": st.sampled_from([False, False, False, True]),
             "sibling": st.sampled_from([None, "private", "private", "public"]),
             "clone": st.sampled_from([None, None, None, "path", "file"]),
+            "clone_no_tags": st.sampled_from([False, False, True]),
+            "upstream_after": st.booleans(),
             "ops": st.lists(op, min_size=1, max_size=3),
         }
     )
